@@ -213,6 +213,24 @@ def rule_shape_path(ctx: Ctx) -> None:  # noqa: C901, PLR0915
         vs = [c for c in val_sites[0].callees if c.qualname != av_q] or [shape]
         n_r = len(reach_rejections(ctx, vs[0]))
         ctx.tri("5-shape-path", vs[0], vs[0].node, n_r >= 3, n_r == 0, "extra / missing inputs and wrong ranks raise", f"{vs[0].name} never raises", f"{n_r} rejections", key="validate-raises")
+    # ... and it is applied to EVERY input: the receiver of `.validate` ranges over the whole of `self.inputs`
+    from ..flow import element_domain
+
+    closure = ctx.cg.reachable(shape.qualname)
+    doms = []
+    for q in sorted(closure):
+        f_ = P.functions.get(q)
+        if f_ is None or not f_.module.name.startswith(MOD):
+            continue
+        for s_ in ctx.cg.sites.get(q, []):
+            if s_.kind == "call" and any(c.qualname == av_q for c in s_.callees) and isinstance(s_.node.func, ast.Attribute) and isinstance(s_.node.func.value, ast.Name):
+                doms += [(f_, s_.node, v) for v in element_domain(ctx, f_, s_.node.func.value.id, ("self.inputs",), within=closure)]
+    if doms:
+        wholes = [x for x in doms if x[2][0] == "whole"]
+        restr = [x for x in doms if x[2][0] == "restricted"]
+        ctx.tri("5-shape-path", (restr or doms)[0][0], (restr or doms)[0][1], bool(wholes), bool(restr) and not wholes, "the rank of every input is validated (the validated arrays range over the whole of self.inputs)",
+                f"only a restriction of the inputs has its rank validated ({restr[0][2][1] if restr else ''}): the shape of an input outside it (e.g. one with only ':' axes) is accepted with any rank",
+                f"domain of the validated arrays not recognised ({doms[0][2][1][:60]})", key="validate-every-input")
     av = asp.methods["validate"]
     rj = [r for r in rejections(ctx.cfg(av), av.node, Defs(av)) if not r["dead"]]
     rank_rej = [r for r in rj if any("len(shape)" in c and "rank" in c for c in r["conds"])]
